@@ -79,6 +79,9 @@ pub struct RunCfg {
     pub max_samples: usize,
 }
 
+/// cases finished so far in this process (watchdogs look at it)
+pub static PROGRESS: AtomicU64 = AtomicU64::new(0);
+
 pub fn fnv(s: &[u8]) -> u64 {
     let mut h: u64 = 0xcbf29ce484222325;
     for b in s {
@@ -156,6 +159,7 @@ where
                             return Ok(());
                         }
                         let v = test(&mut **state_cell.borrow_mut(), &case);
+                        PROGRESS.fetch_add(1, Ordering::Relaxed);
                         let mut local = local_cell.borrow_mut();
                         if failed_once.get() {
                             // shrinking: only the verdict matters
@@ -191,6 +195,8 @@ where
                                     local.inconclusive.push(m);
                                 }
                                 *local.classes.entry("INCONCLUSIVE".into()).or_insert(0) += 1;
+                                // a watchdog costs many seconds per case: do not pile them up
+                                shared.stop.store(true, Ordering::Relaxed);
                                 Ok(())
                             }
                             Verdict::Fail(b) => {
